@@ -181,7 +181,7 @@ func init() {
 	reg(PropCfg{ID: "C08", Pkg: "c08", Level: "exploration",
 		Rule: "validity predicates over every reported position: (text) generated programs damaged by 1-3 truncations / deletions / insertions of hostile tokens / duplications / unterminated constructs at EOF / a non-ASCII first line, as entry or as imported module: every syntax-error and diagnostic span names a served file, is the whole-file position or has line/column/index that agree with the file's text, start <= end, and renders without failure; (culprit) 20 single-fault rules x 8 contexts (incl. after a non-ASCII line, after a multi-line call, inside an imported module): at least one error-level diagnostic intersects the culprit text; (runtime) 7 runtime failures x call depth 0-3 x entry/imported module x non-ASCII prefix x both backends: the caught object's line/column/filename lie inside the failing construct, uncaught/fatal interrupt spans are valid and touch it; non-trivial = every damaged text / table case; distinct by text or table key",
 		Jobs: []Job{
-			{Name: "culprits", Run: "^(TestTableCulprits|TestTableTopLevelFaults)$", Shards: [2]int{2, 4}},
+			{Name: "culprits", Run: "^(TestTableCulprits|TestTableTopLevelFaults|TestTableCompanions)$", Shards: [2]int{2, 4}},
 			{Name: "pairspans", Run: "^TestTablePairSpans$", Shards: [2]int{8, 8}},
 			{Name: "runtime", Run: "^TestTableRuntime$", Shards: [2]int{4, 8}},
 			{Name: "damaged", Run: "^TestDamagedPrograms$", Checks: [2]int{5000, 40000}, Shards: [2]int{8, 16}},
